@@ -136,11 +136,29 @@ def tag_class(raw):
     return None
 
 
+def known_class(op, raw, guards, what):
+    """class of a payload/signature mismatch.  The boolean guards of the C03 `_partial` theorems (Spec/SigGuards,
+    evaluated by Coq) decide WHETHER it is a known divergence; the input shape only names it."""
+    if op in ("cpay", "cmut"):
+        if not guards[0]:
+            return "commit-gpgsig-prefixed-header"
+        if not guards[1] and what == "sig":
+            return commit_class(raw)
+        return None
+    if not guards[1] and what == "sig":
+        return "tag-marker-in-header"
+    if not guards[0]:
+        return tag_class(raw)
+    if not guards[1]:
+        return "tag-marker-in-header"
+    return None
+
+
 class Main(Suite):
     name = "main"
     go_cmd = "c03"
-    coq_imports = "From GoGit Require Import Model.ObjLines Model.Ident Model.Commit Model.Tag Model.SigPayload Spec.GitSig."
-    quick_n = 700
+    coq_imports = "From GoGit Require Import Model.ObjLines Model.Ident Model.Commit Model.Tag Model.SigPayload Spec.GitSig Spec.SigGuards."
+    quick_n = 500
     thorough_n = 8000
 
     def gen(self, rng, n, tier):
@@ -197,28 +215,43 @@ class Main(Suite):
     def nontrivial(self, c):
         return c["op"] in ("cmut", "tmut") or b"gpgsig" in bytes.fromhex(c["raw"]) or b"-----BEGIN" in bytes.fromhex(c["raw"])
 
-    def git_side(self, ctx, cases):
-        """-> {id: (payload, sig) | (None, reason)} from git verify-commit / verify-tag"""
-        if getattr(self, "_git_cache", None) and self._git_cache[0] is cases:
-            return self._git_cache[1]
+    def sides(self, ctx, cases):
+        """-> (git: {id: (payload, sig) | (None, reason)}, guards {id: [bool, bool]} from Spec/SigGuards, S outputs)"""
+        if getattr(self, "_cache", None) and self._cache[0] is cases:
+            return self._cache[1]
+        cs = [c for c in cases if c["op"] in ("cpay", "tpay", "cmut", "tmut")]
+        exprs = []
+        for c in cs:
+            k = "commit" if c["op"] in ("cpay", "cmut") else "tag"
+            exprs.append('OList [c03_guards_%s "%s"; c03_spec_%s "%s"]' % (k, c["raw"], k, c["raw"]))
+        outs = ctx.coq_eval(self.coq_imports, exprs)
+        guards, spec = {}, {}
+        for c, o in zip(cs, outs):
+            if o is None:
+                continue
+            mm = re.match(r"^\( \( (true|false) (true|false) \) (.*) \)$", o)
+            guards[c["id"]] = [mm.group(1) == "true", mm.group(2) == "true"]
+            spec[c["id"]] = mm.group(3)
         repo = GitRepo(ctx.tmp, "c03ref%d" % len(cases))
-        res = {}
+        git = {}
         for kind, ops in (("commit", ("cpay", "cmut")), ("tag", ("tpay", "tmut"))):
-            cs = [c for c in cases if c["op"] in ops]
-            oids = repo.store(kind, [bytes.fromhex(c["raw"]) for c in cs])
-            outs = repo.pmap(lambda o: repo.verify(kind, o), oids)
-            for c, o in zip(cs, outs):
-                res[c["id"]] = o
-        self._git_cache = (cases, res)
-        return res
+            ks = [c for c in cs if c["op"] in ops]
+            oids = repo.store(kind, [bytes.fromhex(c["raw"]) for c in ks])
+            # quick tier: git is asked about every object S expects a signature in, and a sample of the others
+            ask = [ctx.tier != "quick" or spec.get(c["id"], "") != "nosig" or n % 4 == 0 for n, c in enumerate(ks)]
+            outs = repo.pmap(lambda oa: repo.verify(kind, oa[0]) if oa[1] else (None, "unasked"), list(zip(oids, ask)))
+            for c, o in zip(ks, outs):
+                git[c["id"]] = o
+        self._cache = (cases, (git, guards, spec))
+        return self._cache[1]
 
     def oracle(self, ctx, cases, impl, model):
         """the property on the implementation: payload and signature handed to a verifier == git's"""
         fails = {}
-        git = self.git_side(ctx, cases)
+        git, guards, spec = self.sides(ctx, cases)
         for c in cases:
             i, op = c["id"], c["op"]
-            if op not in ("cpay", "tpay", "cmut", "tmut"):
+            if op not in ("cpay", "tpay", "cmut", "tmut") or i not in guards:
                 continue
             r = impl.get(i)
             if r is None:
@@ -236,18 +269,17 @@ class Main(Suite):
                     fails[i] = "mutation %s (not part of the payload) switched to the struct encoding" % c["mut"]
                 elif not vis and gp is not None and got[1] != gp:
                     fails[i] = "payload of an unmutated decoded object differs from git's [class=%s]" % (
-                        commit_class(bytes.fromhex(c["raw"])) if op == "cmut" else tag_class(bytes.fromhex(c["raw"])))
+                        known_class(op, bytes.fromhex(c["raw"]), guards[i], "payload"))
                 continue
             if gp is None:
                 continue        # git does not verify this object (no signature / refuses it / crashes): nothing to compare
             raw = bytes.fromhex(c["raw"])
-            cls = commit_class(raw) if op == "cpay" else tag_class(raw)
             if got is None:
                 continue        # go-git does not decode the object: C02's business (git verify-tag does not parse the tag at all)
             elif got[0] != gp:
-                fails[i] = "payload differs from git's: %r vs %r [class=%s]" % (got[0][-80:], gp[-80:], cls)
+                fails[i] = "payload differs from git's: %r vs %r [class=%s]" % (got[0][-80:], gp[-80:], known_class(op, raw, guards[i], "payload"))
             elif got[1] != gs:
-                fails[i] = "signature differs from git's: %r vs %r [class=%s]" % (got[1][-60:], gs[-60:], cls)
+                fails[i] = "signature differs from git's: %r vs %r [class=%s]" % (got[1][-60:], gs[-60:], known_class(op, raw, guards[i], "sig"))
         return fails
 
     def finding_class(self, case, reason, reply):
@@ -256,15 +288,17 @@ class Main(Suite):
 
     def extra(self, ctx, cases, impl, model):
         """C-git: S (Spec/GitSig) vs the git binary on the same objects"""
-        git = self.git_side(ctx, cases)
-        cs = [c for c in cases if c["op"] in ("cpay", "tpay")]
-        exprs = ['c03_spec_%s "%s"' % ("commit" if c["op"] == "cpay" else "tag", c["raw"]) for c in cs]
-        outs = ctx.coq_eval(self.coq_imports, exprs)
+        git, guards, spec = self.sides(ctx, cases)
+        cs = [c for c in cases if c["op"] in ("cpay", "tpay") and c["id"] in spec]
+        outs = [spec[c["id"]] for c in cs]
         bad = compared = undefined = 0
         stats = {}
         for c, o in zip(cs, outs):
             gp, gs = git[c["id"]]
-            stats[gs if gp is None else "dumped"] = stats.get(gs if gp is None else "dumped", 0) + 1
+            if gp is None and gs == "unasked":
+                continue
+            k = "dumped" if gp is not None else gs.split(":")[0]
+            stats[k] = stats.get(k, 0) + 1
             if o is None:
                 bad += 1
                 ctx.notes.append("spec evaluation failed on %s" % c["raw"][:80])
